@@ -15,7 +15,7 @@ P = {
  "C01": (True, "seq", "differential runtime monitor: reference model replayed over the ordered callback log of generated sequences",
    "Held on the generated sequences only: every return value, entry, iterator and deletion event of each operation is compared with a map-with-deadlines model after every operation, over hostile configurations (all size/expiry/refresh kinds, tiny maxima, deadline-exact clock moves).",
    "The model in harness/internal/seq/model.go is the specification as read from the property; inputs are sampled, not enumerated.", "4/C01"),
- "C03": (True, "seq", "differential runtime monitor with expired-but-unswept state forcing (manual clock moved exactly onto deadlines) + concurrent phased trials in which every exposed value is compared with its deadline; race detector",
+ "C03": (True, "seq", "differential runtime monitor with expired-but-unswept state forcing (manual clock moved exactly onto deadlines) + concurrent phased trials in which every exposed value is compared with its deadline; race detector; persistence round trips under an expiry policy (nothing expired at the load time is loaded); iteration with writes from the loop body (nothing yielded may have reached its deadline)",
    "Held on the explored sequences: every public operation is applied to keys whose deadline has been reached but which maintenance has not removed, and any exposure of such a value (return value, previous value, iterator, revival) is a violation.",
    "Clock moves only between operations (manual clock); model trusted.", "4/C03"),
  "C07": (True, "seq", "online monitor over deletion events: each Overflow/Expiration event is judged against the model's total weight / deadline at that moment",
@@ -24,7 +24,7 @@ P = {
  "C10": (True, "seq", "differential runtime monitor over loader-controlled outcomes (value, error, ErrNotFound, panic, partial/extra/empty bulk maps), no-op computations run from inside loaders, cancelled contexts; slow loaders (the manual clock advances inside the loader); own-executor scenarios (one caller goroutine, maintenance on the default executor: a successful load must be cached once the executor is idle)",
    "Held on the explored sequences: (result, error), loader argument lists and the cache contents after every Get/BulkGet equal the model's.",
    "Loader outcomes are driven by the harness; bulk error outcomes return no partial map.", "4/C10"),
- "C11": (True, "seq", "differential runtime monitor around refresh deadlines with a same-goroutine executor + concurrent scenarios with a gated loader (readers during an in-flight reload, a second explicit refresh joining it, refresh messages judged at quiescence); race detector",
+ "C11": (True, "seq", "differential runtime monitor around refresh deadlines with a same-goroutine executor + concurrent scenarios with a gated loader (readers during an in-flight reload, a second explicit refresh joining it, refresh messages judged at quiescence); race detector; swap scenarios (a reloaded value is fresh from the moment it is visible: Reload is never handed a value that a reload produced)",
    "Held on the explored sequences: stale reads return the cached value and hand off exactly one reload, reload outcomes map to install / keep / remove, manual Refresh delivers exactly one message (nil channel without a refresh policy).",
    "Executor runs tasks inline; reload tasks whose loader panics are not judged (nothing is promised for them).", "4/C11"),
  "C12": (True, "seq", "differential runtime monitor on ExpiresAtNano/RefreshableAtNano after every operation, durations up to MaxInt64, three clock origins",
@@ -39,10 +39,10 @@ P = {
  "C20": (True, "seq", "differential runtime monitor: Stats() snapshot compared with model tallies after every operation; counters sampled for monotonicity under concurrency",
    "Held on the explored histories: hits/misses per counting operation, load successes/failures per loader invocation by outcome, evictions/weight paired with Overflow/Expiration events.",
    "A panicking compute function is not counted as a lookup (the call does not complete).", "4/C20"),
- "C02": (True, "conc", "linearizability checking of recorded concurrent histories (porcupine v1.3.0, per key; loaders answering value or not-found, cancelled contexts) + callback counter + exact read-back of churn keys during table growth + Go race detector, with PRNG delays at verif yield points; late-extension scenarios (a reader parked in ExpireAfterRead extends the deadline of a node a writer has just judged expired)",
+ "C02": (True, "conc", "linearizability checking of recorded concurrent histories (porcupine v1.3.0, per key; loaders answering value or not-found, cancelled contexts) + callback counter + exact read-back of churn keys during table growth + Go race detector, with PRNG delays at verif yield points; late-extension scenarios (a reader parked in ExpireAfterRead extends the deadline of a node a writer has just judged expired); trials with expiring entries and a manual clock moved by the workers, checked (porcupine) against a map-with-deadlines model in which every operation may use any clock value between the readings taken before its call and after its return; several churn goroutines filling the table at once (yield point map.resize.waited)",
    "Held on the recorded histories: each key's sub-history (explicit operations, loader-backed Get split into read-miss and install, automatic removals as operations bounded by the two handlers) has a linearization; compute functions ran exactly once.",
    "Schedules are sampled; checker timeouts are reported as inconclusive; quiet reads and iterators are not part of the histories.", "4/C02"),
- "C04": (True, "conc", "quiescence monitor: bound on the weights of All() after one CleanUp, Overflow events of zero-weight values, VerifAudit weightedSize <= maximum; trials with expiry on a worker-driven manual clock and with a stalled executor (full write buffer); race detector",
+ "C04": (True, "conc", "quiescence monitor: bound on the weights of All() after one CleanUp, Overflow events of zero-weight values, VerifAudit weightedSize <= maximum; trials with expiry on a worker-driven manual clock and with a stalled executor (full write buffer); race detector; size-eviction variant of the reader-versus-sweep schedules judged by the bound after SetMaximum(0)",
    "Held on the explored concurrent trials (inserts, weight-changing updates, reads, invalidations, SetMaximum; sync / async / default executors; delays between table update and write-buffer publish).",
    "Judged only after all calls returned, the executor is idle and exactly one CleanUp ran.", "4/C04"),
  "C05": (True, "conc", "quiescence monitor: view equalities (WeightedSize, EstimatedSize, Hottest/Coldest vs All) + white-box structural audit of deques, weight totals and timer wheel through VerifAudit; race detector; late-extension scenarios; the same structural audit in the sequential engine after every CleanUp",
@@ -51,16 +51,16 @@ P = {
  "C06": (True, "conc", "offline checker over both deletion-handler logs: exactly-once, conservation (written = present + reported), handler agreement, cause explanation, per-key order along the install chain (concurrent trials with a size bound, not-found loaders and a stalled-executor variant; phased trials with expiry) + exact per-operation event multiset in the sequential engine incl. the queued-executor mode; race detector; late-extension scenarios (return value, atomic cause and deferred cause must agree)",
    "Held on the explored trials, sequential (exact expected event multiset per operation, in the C01 engine) and concurrent (replacement racing with eviction, InvalidateAll racing with writers, sync and async executors).",
    "Unique values make the histories unambiguous; OnDeletion is judged after the executor is idle.", "4/C06"),
- "C14": (True, "conc", "quiescence audit without any further cache call (VerifAudit: drain status idle, write buffer empty, weightedSize <= maximum, notifications delivered) over thousands of short trials with the default executor made countable, a racing-pairs stress on one long-lived cache (audit after each of 10^5+ rounds) and full-write-buffer scenarios under a lock-holding iteration; delays at the drain-protocol yield points; racing pairs with a read of an expired unswept entry (idle entry into the drain scheduling); full-buffer scenarios with a tight release",
+ "C14": (True, "conc", "quiescence audit without any further cache call (VerifAudit: drain status idle, write buffer empty, weightedSize <= maximum, notifications delivered) over thousands of short trials with the default executor made countable, a racing-pairs stress on one long-lived cache (audit after each of 10^5+ rounds) and full-write-buffer scenarios under a lock-holding iteration; delays at the drain-protocol yield points; racing pairs with a read of an expired unswept entry (idle entry into the drain scheduling); full-buffer scenarios with a tight release; InvalidateAll taking the eviction lock over from an iteration with a nearly full write buffer while late writers publish",
    "Held on the explored trials: liveness is restated as a safety property of the quiescent state; all four drain states and both CAS failure paths are exercised (hook log).",
    "For-all-interleavings is sampled; VerifSetDefaultExecutor replaces the package default executor only to count its goroutines.", "4/C14"),
- "C08": (True, "conc", "runtime monitor over loader entry/exit intervals and call results of concurrent bursts (single-flight overlap rule, waiter results, every requested key of a BulkGet accounted for, exactly-one refresh message, no in-flight record left, stall watchdog with goroutine dump); race detector",
+ "C08": (True, "conc", "runtime monitor over loader entry/exit intervals and call results of concurrent bursts (single-flight overlap rule, waiter results, every requested key of a BulkGet accounted for, exactly-one refresh message, no in-flight record left, stall watchdog with goroutine dump); race detector; calls made without a loader (nil interface) must leave no in-flight record behind",
    "Held on the explored bursts of Get/BulkGet/Refresh/BulkRefresh over overlapping key sets with every loader outcome (value, error, ErrNotFound, panic, partial/extra bulk maps); pure-load bursts admit no overlap at all, mixed bursts admit an overlap only if a write or eviction activity can explain it.",
    "Termination is decided as bounded progress (no call completes for 40 s = stall, with the goroutine dump as witness); refresh tasks whose own loader panics are not awaited.", "4/C08"),
- "C09": (True, "conc", "loader-controlled scenario enumeration (load kind x write kind x write position, parked at the load.beforeInstall yield point) + straddle scenarios (the writer parked inside its Weigher / calculator / atomic handler, i.e. before publication, while the load starts) + jittered stress, oracle: a loaded value is never observed as current after an effective write called after the loader entry",
+ "C09": (True, "conc", "loader-controlled scenario enumeration (load kind x write kind x write position, parked at the load.beforeInstall yield point) + straddle scenarios (the writer parked inside its Weigher / calculator / atomic handler, i.e. before publication, while the load starts) + jittered stress, oracle: a loaded value is never observed as current after an effective write called after the loader entry; scenarios whose load fails: the refresh time of the written entry must not move",
    "Held on the explored scenarios and stress histories. Defect D8 (a write straddling the start of the load), first recorded as a known finding, was repaired in /repo (53c1460); its witness family stays in the check as a violation detector.",
    "A load is taken to be in flight from its loader entry (the latest start a black box can see), so the oracle never demands more than the statement.", "4/C09"),
- "C15": (True, "comp", "component stress of the real table (internal/hashmap through a verif-tag wrapper): porcupine per hot key, stable-key presence under growth/shrink, Range once-only / nothing removed before start, Size at quiescence, Clear; cache-level iteration under churn and InvalidateAll under write load; race detector (+ asan in the thorough tier); degraded key hashes through the hook VerifSetHash (long bucket chains, equal meta bytes); keys whose value is replaced during cache-level iterations; Clear under concurrent growth",
+ "C15": (True, "comp", "component stress of the real table (internal/hashmap through a verif-tag wrapper): porcupine per hot key, stable-key presence under growth/shrink, Range once-only / nothing removed before start, Size at quiescence, Clear; cache-level iteration under churn and InvalidateAll under write load; race detector (+ asan in the thorough tier); degraded key hashes through the hook VerifSetHash (long bucket chains, equal meta bytes); keys whose value is replaced during cache-level iterations; Clear under concurrent growth; stampede trials (8-32 goroutines fill an empty table at the same moment, slow update functions, yield point map.resize.waited)",
    "Held on the explored trials with churn goroutines that grow and shrink the table repeatedly and initial capacities from 0 to 10^4; observed growths/shrinks and chain lengths are reported.",
    "Hash collisions within a chain cannot be forced (seeded maphash): chains get long only by load.", "4/C15"),
  "C16": (True, "comp", "component stress of the real MPSC write buffer: exactly-once, per-producer order, justified refusals, Size <= capacity, sequential capacity sweep over (initial,max) pairs; race detector (+ asan); cache-level scenarios: consumption order with a stalled executor and a full buffer, a refused-then-retried offer after the buffer was filled from an iteration body",
